@@ -44,6 +44,12 @@ def configs(tier: str) -> list:
         # one explicit conjunction with several failing parts per individual: mutation picks among the failing trees
         "conjunction": ('<start> ::= <a> "-" <b> "-" <c>\n<a> ::= <digit>+\n<b> ::= <digit>+\n<c> ::= <digit>+\n<digit> ::= r"[0-9]"\n'
                         'where int(<a>) % 13 == 5 and int(<b>) % 17 == 11 and int(<c>) % 7 == 3\n', "5-11-3"),
+        # a forall whose body fails for several elements of one individual (the failing trees of all iterations are merged)
+        "forall_many": ('<start> ::= <row> ";" <row> ";" <row>\n<row> ::= <cell> "," <cell> "," <cell>\n<cell> ::= <digit>{1,2}\n<digit> ::= r"[0-9]"\n'
+                        'where forall <c> in <cell>: int(<c>) > 60\n', "61,62,63;64,65,66;67,68,69"),
+        # a computed repetition whose bounds form a real range: the repair draws a goal length
+        "computed_range": ('<start> ::= <lo> "-" <hi> ":" <item>{int(<lo>), int(<hi>)}\n<lo> ::= "1" | "2"\n<hi> ::= "4" | "5" | "6"\n<item> ::= "x" | "y"\n'
+                           'where str(<item>) != "y"\n', "2-4:xxx"),
         # a conditional expression over three differently shaped symbols: the ORDER of the constraint's searches decides the order of the failing trees
         "conditional": ('<start> ::= <a> "-" <b> "-" <c>\n<a> ::= <digit>{1,4}\n<b> ::= <digit>{2,3}\n<c> ::= <digit>+\n<digit> ::= r"[0-9]"\n'
                         'where (int(<a>) > 990) if (int(<b>) > 80) else (int(<c>) == 77)\nwhere len(str(<c>)) < 40\n', "991-81-5"),
